@@ -34,6 +34,51 @@ def short_tupleu(t, d, fam, depth=0) -> bool:
     return False
 
 
+def k7_part(ctx: vlib.Ctx):
+    """kernel K7 (arg_indexes loop of pack_tuple/unpack_tuple): theorems + validation of the translation by
+    running the very loop of the source on abstract argument lists"""
+    import ast
+    ctx.theorems("props/C03_tuple_kernel.vo", ["C03_tuple_indexes", "C03_tuple_short_input_refuted"], kernels=["K7"])
+    if not ctx.kernel_report.get("K7", {}).get("ok"):
+        return
+    src = open(vlib.REPO + "/mashumaro/core/meta/types/unpack.py").read()
+    fn = next(n for n in ast.parse(src).body if isinstance(n, ast.FunctionDef) and n.name == "unpack_tuple")
+    loop = next(n for n in ast.walk(fn) if isinstance(n, ast.For) and ast.unparse(n.iter) == "enumerate(args)")
+    code = compile(ast.Module(body=[loop], type_ignores=[]), "<k7-loop>", "exec")
+    cases, flagsets = [], []
+    r = ctx.rng
+    for _ in range(ctx.budget(300, 3000)):
+        n = r.randrange(0, 7)
+        flags = [False] * n
+        for _ in range(r.choice([0, 1, 1, 1, 2])):
+            if n:
+                flags[r.randrange(n)] = True
+        env = {"args": ["U" if f else "P" for f in flags], "is_unpack": lambda a: a == "U", "arg_indexes": [], "unpack_idx": None,
+               "type_name": lambda t: "T", "spec": type("S", (), {"type": None})()}
+        try:
+            exec(code, env)
+            exp = "(Some [" + "; ".join(
+                (f"ASl {vlib.coq_z(a[0])} " + ("None" if a[1] is None else f"(Some {vlib.coq_z(a[1])})")) if isinstance(a, tuple) else f"AI {vlib.coq_z(a)}"
+                for a in env["arg_indexes"]) + "])"
+        except TypeError:
+            exp = "None"
+        cases.append("([" + "; ".join("true" if f else "false" for f in flags) + "], " + exp + ")")
+        flagsets.append(flags)
+    defs = ("Definition aidx_eqb (a b: aidx) : bool := match a, b with AI x, AI y => Z.eqb x y | ASl x None, ASl y None => Z.eqb x y "
+            "| ASl x (Some p), ASl y (Some q) => Z.eqb x y && Z.eqb p q | _, _ => false end.\n"
+            "Fixpoint leq (a b: list aidx) : bool := match a, b with [], [] => true | x :: r, y :: s => aidx_eqb x y && leq r s | _, _ => false end.\n")
+    okf = "fun c => match arg_indexes (fst c), snd c with Some a, Some b => leq a b | None, None => true | _, _ => false end"
+    bad, log = vlib.coq_bad_idx("c03_k7", "TupleIdx", "From VerifGen Require Import K7.", defs, cases, okf,
+                                "list bool * option (list aidx)", shard=1500, needs=["gen/K7.vo", "theories/TupleIdx.vo"])
+    if bad is None:
+        ctx.correspondence("K7-translation-vs-source-loop", len(cases), -1, log)
+        ctx.not_shown("translation validation K7", log)
+    else:
+        ctx.correspondence("K7-translation-vs-source-loop", len(cases), len(bad), str([flagsets[i] for i in bad[:5]]))
+        if bad:
+            ctx.not_shown("translation validation K7", str([flagsets[i] for i in bad[:5]]))
+
+
 def run(ctx: vlib.Ctx):
     from mashumaro.codecs.basic import BasicDecoder, BasicEncoder
 
@@ -41,10 +86,12 @@ def run(ctx: vlib.Ctx):
                             "(one position of a valid wire value replaced by a wrong JSON type / removed / null / extra key / surplus item, or pure junk); "
                             "distinct = (type tree, input) pairs; non-trivial = input is not the unmodified encoder output")
     ctx.theorems("props/C03_unpack.vo", ["C03_unpack_ref", "C03_field_unpacker", "C03_well_typed"])
+    ctx.trusted += ["tools/kernels/k7_tuple_indexes.py (translator of the arg_indexes loop; validated each run against the source loop executed on abstract argument lists)"]
     ctx.trusted += ["TyModel.v (cu/uk: hand-written model of unpack.py registry order incl. iteration of str/dict inputs, tuple surplus, field lookup) "
                     "tied by vm_compute correspondence; stdlib constructors (int/float/str, fromisoformat, UUID, Decimal, ..., decodebytes, Enum()) are oracle tables"]
     ctx.assumptions += ["conformance of results (exact classes) and NamedTuple/TypedDict/abstract collections are decided by the oracle only"]
 
+    k7_part(ctx)
     cases, bad, log = tycorr.run(ctx, "c03_ty", ctx.budget(60, 400), 2, depth=3, foreign=4)
     hits = tyoracle.report_corr(ctx, "TyModel.uk/ref_dec vs BasicDecoder.decode", cases, bad, log, want="dec")
 
